@@ -15,6 +15,27 @@ ENC = "transport::encode::Encoder"
 ENCST = "transport::encode::EncoderState"
 
 
+def le_byte_def(ip, d):
+    """normal form ('le_byte', x, j) of the definition of a byte of a 16-bit value x: to_le_bytes()[j], or written with shifts and
+    casts (`x as u8`, `(x >> 8) as u8`, `x & 0xff`); None for anything else"""
+    if not d:
+        return None
+    if d[0] == "le_byte":
+        return d
+    if d[0] == "trunc" and len(d) >= 3 and d[2] == 16:
+        x = d[1]
+        sg = x.single()
+        d2 = ip.tab.defn(sg[0]) if sg and sg[1] == 1 and x.c == 0 else None
+        if d2 and d2[0] == "shr" and d2[2] == 8:
+            return ("le_byte", d2[1], 1)
+        return ("le_byte", x, 0)
+    if d[0] == "and" and d[2] == 0xff:
+        return ("le_byte", d[1], 0)
+    if d[0] == "shr" and d[2] == 8:
+        return ("le_byte", d[1], 1)
+    return None
+
+
 def run(ctx):
     ctx.rule("R-C07-OOM", "encode(): every buffer write is fallible, its failure is returned as Err(OutOfMemory) on every path and Err is "
                           "returned only then; no write is skipped on the success path (each write dominates the Ok return / the loop back edge)")
@@ -329,7 +350,7 @@ def check_encode(ctx, F, A):
             why = "range %s, zero bytes %s, zero count == pad %s, (length before padding + pad) %% 4 == 0 %s" % (in_range, zeros, nz, cong)
         c = C["consts"]
         syms = [x[1].single()[0] for x in c if isinstance(x, tuple) and x[1] is not None and x[1].single()]
-        defs = [ip.tab.defn(s_) for s_ in syms]
+        defs = [le_byte_def(ip, ip.tab.defn(s_)) for s_ in syms]
         cks = s3.ghost.get("c07-cks")
         good = len(c) == 2 and len(defs) == 2 and all(d and d[0] == "le_byte" for d in defs) and [d[2] for d in defs] == [0, 1] and cks is not None and cks[4]
         if good:
@@ -667,7 +688,7 @@ def check_iter(ctx, F, A):
                     lo, hi = rs[0]["st"].interval(e.lin) if isinstance(e, VInt) else ((e, e) if isinstance(e, int) else (None, None))
                     ok = lo is not None and lo >= 0 and hi is not None and hi <= 3
                 else:
-                    d = ip.tab.defn(e.lin.single()[0]) if isinstance(e, VInt) and e.lin.single() else None
+                    d = le_byte_def(ip, ip.tab.defn(e.lin.single()[0])) if isinstance(e, VInt) and e.lin.single() else None
                     ok = d is not None and d[0] == "le_byte" and d[2] == n - 6 and rs[0]["final"]
             if ok:
                 # nothing but the state changes (so the pad count and the CRC stay what they were)
